@@ -224,12 +224,16 @@ func (v *value) Import(val interface{}) error {
 		return nil
 	}
 
+	// a row is data to convert like any other value (the JSON reader hands every nested
+	// object as a row): only a plain Value replaces the format and raw type of the column
 	if value, ok := val.(Value); ok {
-		v.f = value.GetFormat()
-		v.raw = value.Raw()
-		v.typ = value.GetRawType()
+		if _, isRow := val.(Row); !isRow {
+			v.f = value.GetFormat()
+			v.raw = value.Raw()
+			v.typ = value.GetRawType()
 
-		return nil
+			return nil
+		}
 	}
 
 	var err error
